@@ -372,7 +372,7 @@ func main() {
 		"possibleTypes of an interface are the OBJECT types implementing it (GraphQL spec, __Type.possibleTypes)",
 		"the semantics of includeDeprecated:false is not judged (the property speaks about the full description); the superset query passes includeDeprecated:true wherever the served meta-schema accepts it",
 		"the repo's standard introspection.Query is compared only for what it requests; deprecated arguments/input fields may be hidden from it",
-		"the federation _service field is not covered: no federation probe exists in the farm yet",
+		"the federation _service field is exercised on the fed2 probe with per-request introspection switching (allowed / disallowed histories, two server instances)",
 		"@defer on fragments of the Query root is used as a hiding shape only (gqlgen answers root-level meta fields in the first payload); all payloads are inspected anyway",
 		"disabled mode runs on the probes' own schemas (tx with ordinary resolver-backed neighbours, core_c0..c3 with __typename neighbours) through graphql/executor and, for every fifth case, through handler.New + transport.POST, both without the Introspection extension",
 		"random schemas stay inside what gqlparser's schema validator accepts (rejection sampling, rejections counted)",
@@ -610,6 +610,7 @@ func main() {
 	if rep.Get("disabled_cases") == 0 {
 		rep.Inconclusive("no disabled-mode case ran")
 	}
+	atomic.AddInt64(&sh.evals, serviceChecks(rep))
 	os.Exit(rep.Finish(atomic.LoadInt64(&sh.evals), int64(rep.DistinctLen("nontrivial")+rep.DistinctLen("disabled_documents"))))
 }
 
